@@ -11,12 +11,12 @@ extern uint32_t lzma_verif_mf_offset_bias, lzma_verif_lz_reserve_cap;
 #endif
 
 enum { E_STREAM, E_RAW, E_BLOCK, E_MT };
-enum { C_LZMA2_HC3, C_LZMA2_BT4, C_LZMA2_BT2, C_LZMA2_HC4, C_DELTA_LZMA2, C_X86_LZMA2, C_LZMA1 };
+enum { C_LZMA2_HC3, C_LZMA2_BT4, C_LZMA2_BT2, C_LZMA2_HC4, C_DELTA_LZMA2, C_X86_LZMA2, C_LZMA1, C_LZMA2_BT3 };
 typedef struct { const char *name; int enc, chain; } config;
 static const config CFG[] = {
 	{ "stream/lzma2-hc3-fast", E_STREAM, C_LZMA2_HC3 }, { "stream/lzma2-bt4-normal", E_STREAM, C_LZMA2_BT4 }, { "stream/delta+lzma2", E_STREAM, C_DELTA_LZMA2 },
 	{ "stream/x86+lzma2", E_STREAM, C_X86_LZMA2 }, { "raw/lzma2-bt4", E_RAW, C_LZMA2_BT4 }, { "raw/lzma2-hc4", E_RAW, C_LZMA2_HC4 }, { "raw/lzma1", E_RAW, C_LZMA1 }, { "raw/x86+lzma2", E_RAW, C_X86_LZMA2 },
-	{ "block/lzma2-bt2", E_BLOCK, C_LZMA2_BT2 }, { "mt2/lzma2-hc3", E_MT, C_LZMA2_HC3 },
+	{ "block/lzma2-bt2", E_BLOCK, C_LZMA2_BT2 }, { "mt2/lzma2-hc3", E_MT, C_LZMA2_HC3 }, { "raw/lzma2-bt3", E_RAW, C_LZMA2_BT3 },
 };
 #define NCFG ((int)(sizeof CFG / sizeof CFG[0]))
 static lzma_options_lzma opt, opt_upd, opt_mf; static lzma_options_delta odelta = { .type = LZMA_DELTA_TYPE_BYTE, .dist = 2 }; static lzma_filter chain[4], chain_upd[4], chain_other[4], chain_bad[4], chain_mf[4];
@@ -24,7 +24,7 @@ static lzma_options_lzma opt, opt_upd, opt_mf; static lzma_options_delta odelta 
 static void mk_chain(int c) {
 	lzma_lzma_preset(&opt, 0); opt.dict_size = 4096; opt.nice_len = NICE; opt.depth = 0;
 	switch (c) { case C_LZMA2_HC3: case C_X86_LZMA2: case C_DELTA_LZMA2: opt.mf = LZMA_MF_HC3; opt.mode = LZMA_MODE_FAST; break; case C_LZMA2_BT4: case C_LZMA1: opt.mf = LZMA_MF_BT4; opt.mode = LZMA_MODE_NORMAL; break;
-		case C_LZMA2_BT2: opt.mf = LZMA_MF_BT2; opt.mode = LZMA_MODE_NORMAL; break; case C_LZMA2_HC4: opt.mf = LZMA_MF_HC4; opt.mode = LZMA_MODE_FAST; break; }
+		case C_LZMA2_BT2: opt.mf = LZMA_MF_BT2; opt.mode = LZMA_MODE_NORMAL; break; case C_LZMA2_BT3: opt.mf = LZMA_MF_BT3; opt.mode = LZMA_MODE_NORMAL; break; case C_LZMA2_HC4: opt.mf = LZMA_MF_HC4; opt.mode = LZMA_MODE_FAST; break; }
 	int n = 0; if (c == C_DELTA_LZMA2) chain[n++] = (lzma_filter){ LZMA_FILTER_DELTA, &odelta }; if (c == C_X86_LZMA2) chain[n++] = (lzma_filter){ LZMA_FILTER_X86, NULL };
 	chain[n++] = (lzma_filter){ c == C_LZMA1 ? LZMA_FILTER_LZMA1 : LZMA_FILTER_LZMA2, &opt }; chain[n].id = LZMA_VLI_UNKNOWN;
 	// update variants: same chain with other lc/lp/pb; a different chain; an invalid chain
